@@ -67,7 +67,7 @@ def r1_winner_filtered(ctx):
         if len(drop) == 1:
             g = drop[0].generators[0]
             kk = [bool_key(Normalizer(None, inline=False).guard(t)) for t in g.ifs]
-            good = kk in ([f"not eq(len({g.target.id}), 0)"], [f"ge(len({g.target.id}), 1)"]) and astx.is_name(drop[0].elt, g.target.id)
+            good = kk == [f"truthy({g.target.id})"] and astx.is_name(drop[0].elt, g.target.id)
         ctx.check(good, f, drop[0] if drop else lp, f"{name}: emptied positions are dropped, others kept", "", "the empty-position filter changed")
     ctx.check(len(set(keys.values())) == 1, None, None, "sibling agreement: both transfer rules filter the winner the same way", str(keys),
               f"the two transfer functions disagree: {keys}")
